@@ -3,6 +3,7 @@ macro_rules! verif_harness {
     ($(#[$m:meta])* $name:ident, $unwind:expr, $body:block) => {
         #[kani::proof]
         #[kani::unwind($unwind)]
+        #[kani::stub(std::alloc::dealloc, stubs::dealloc_noop)]
         #[kani::stub(std::backtrace::Backtrace::capture, stubs::backtrace_disabled)]
         #[kani::stub(alloc::fmt::format, stubs::fmt_format_empty)]
         #[kani::stub(core::panicking::panic_nounwind_fmt, stubs::panic_nounwind_fmt_stub)]
